@@ -23,7 +23,7 @@ RULE = ("TLC enumerates (int) every token string of length 1..3 (thorough: 1..4)
         "with a sign / zero prefix and a garbage suffix, for all 10 integer param types; (str) token strings over plain, "
         "escaped ASCII, escaped multi-byte, %2F, %25, non-UTF-8 escapes for String / Cow<str> / &str; (bind) two-param routes, "
         "flat and split over a nested mount, handlers declaring fewer params than captured; (item) the signature catalogue "
-        "(47 signatures with 1-4 extractors, 0-2 params) x the decision table query x Content-Type {none, other, matching, "
+        "(49 signatures with 1-4 extractors, 0-2 params) x the decision table query x Content-Type {none, other, matching, "
         "with parameters, case variant} x body format x payload class {valid-1, valid-2, extra key, bad syntax, wrong type, "
         "missing field, empty} x headers; the harness adds seeded random scenarios of the same vocabulary (digit strings up to "
         "22 digits, longer segments, all signatures, free combinations).  distinct = by content hash of the abstract scenario; "
